@@ -920,16 +920,22 @@ pub fn drive_c16(a: &Args) {
         if !(explore_ok(x) && explore_ok(y)) {
             continue;
         }
+        // the union of the pair (pruned with the same test): membership of short words, every 3rd pair
+        let uw = if id % 3 == 0 { words_for(&T::Alt2(Box::new(x.clone()), Box::new(y.clone())), &mut rng, 3, 2) } else { vec![] };
         let r = guarded(|| {
             let (ex, ey) = (x.build(&mut mgr), y.build(&mut mgr));
-            (ex.included_in(ey), std::ptr::eq(ex, ey))
+            let res = ex.included_in(ey);
+            let u = mgr.union(ex, ey);
+            let u2 = mgr.union_list(vec![ey, ex]);
+            let ures: Vec<bool> = uw.iter().map(|w| mgr.str_in_re(&SmtString::from(w.clone()), u)).collect();
+            (res, std::ptr::eq(ex, ey), ures, std::ptr::eq(u, u2) || uw.is_empty())
         });
         match r {
-            Ok((res, same)) => {
+            Ok((res, same, ures, _)) => {
                 if res {
                     ntrue += 1;
                 }
-                out.emit(json!({"op":"incl","id":id,"fam":fam,"a":x.json(),"b":y.json(),"res":res,"same":same}));
+                out.emit(json!({"op":"incl","id":id,"fam":fam,"a":x.json(),"b":y.json(),"res":res,"same":same,"uwords":uw,"ures":ures}));
             }
             Err(msg) => {
                 out.emit(json!({"op":"panic","id":id,"fam":fam,"a":x.json(),"b":y.json(),"where":"included_in","msg":msg}));
